@@ -306,3 +306,17 @@ Proof.
   - now apply sd_measure_progress.
   - intros l s' ev Hst. eapply sd_measure_mono; eauto.
 Qed.
+
+(* ---------------------------------------------------------------- parallelism up to the thread limit *)
+
+(* Until Shutdown() begins the pool threads that work for a client are exactly the keys of _activeThreads, a
+   duplicate-free table of at most _maxThreadCount entries: at most that many handlers run at once. *)
+Theorem pool_parallel_bound : forall n ls s tr, run (init n) ls = Some (s, tr) -> s_shut s = false ->
+  NoDup (s_active s) /\ length (s_active s) <= s_max s /\
+  (forall t h c, tget t (s_thr s) = Some h -> th_client h = Some c -> In t (s_active s)) /\
+  (forall t, In t (s_active s) -> exists h c, tget t (s_thr s) = Some h /\ th_client h = Some c).
+Proof.
+  intros n ls s tr H Hsh. apply run_reach in H. destruct (reach_inv _ _ _ H) as [I [U W]].
+  split; [apply (i_nd_active _ I)|]. split; [pose proof (i_count _ I); lia|]. split; [|apply (i_active_busy _ I Hsh)].
+  intros t h c Ht Hc. destruct (fin_facts s t h c I Hsh Ht Hc) as [_ [_ [Hm _]]]. now apply lmem_In.
+Qed.
